@@ -5,8 +5,19 @@ C side: harness/zvh_fseenc.c; Lean side: `zvdriver fseenc` (lean/Driver/FSEEnc.l
   ctable <tableLog> <counts>           -> ok log=<tableLog> st=<tableU16[...]> tt=<deltaNbBits:deltaFindState,...>   (model appends spreadOK= spreadEncEqDec=)
   dtable <tableLog> <counts>           -> ok cells=<symbol:nbBits:newState,...>
   enc <tableLog> <counts> <symbols>    -> ok <hex of the closed bit stream>
+  seqtableLL|OF|ML <tableLog> <counts> -> ok cells=<nextState:nbAddBits:nbBits:baseValue,...>   (ZSTD_buildFSETable, both BMI2 settings)
+  ncount <tableLog> <counts>           -> ok <hex of the table description> | err generic | err tableLog_tooLarge
+                                          C: FSE_writeNCount (fse_compress.c), model: NCountW.writeNCount? (lean/ZstdVerif/Model/NCountW.lean)
+  rncount <maxSV> <hex|->              -> ok log=<tableLog> norm=<c0,...,c_maxSVout> used=<bytes read> | err <class>
+                                          C: FSE_readNCount (entropy_common.c, both BMI2 settings) on exactly those bytes, model: FSE.readNCount
+For ncount / rncount the two lines must be equal, error lines included (the error class names agree on both sides).  The rncount ops are
+made from the descriptions the C writer produced in a first pass (followed by 0..7 extra bytes, cut short, mutated), so the tool also
+checks the round trip FSE_readNCount(FSE_writeNCount(norm)) = (norm without its trailing zeros, tableLog, size of the description).
+
+Stand-alone:  python3 tools/ent_fse.py <seed> [full]
 """
-import re
+import os, re, sys
+sys.path.insert(0, os.path.dirname(os.path.abspath(__file__)))
 import build, zv
 
 # the three predefined distributions of zstd (lean/ZstdVerif/Gen/Tables.lean: LL_defaultNorm, ML_defaultNorm, OF_defaultNorm)
@@ -167,6 +178,232 @@ def gen_op(rng):
     return "enc %d %s %s" % (log, counts, ",".join(map(str, gen_symbols(rng, norm))))
 
 
+# ---------------------------------------------------------------------------------------------------------- table descriptions
+
+# numbers of zero-count symbols between two non-zero counts: the writer emits the first zero as a count, then the run of the other k - 1
+# (24 zeros = 16 bits `1`, 3 zeros = 2 bits `11`, then a 2-bit rest); the reader takes 36 at a time (12 fields), then 3 at a time
+ZRUNS = [1, 2, 3, 4, 5, 22, 23, 24, 25, 26, 27, 28, 36, 37, 38, 47, 48, 49, 50, 71, 72, 73, 74, 75, 96, 97, 98, 100, 108, 109, 110, 120, 121, 122]
+
+
+def _values(rng, size, m, low=None):
+    """m non-zero counts (-1 allowed) whose weights sum to size; m <= size"""
+    assert 1 <= m <= size
+    if low is None:
+        low = rng.choice([0, 0, 1, 2, rng.randint(0, m), rng.randint(0, max(0, m // 4))])
+    low = min(low, m)
+    if low == m and m < size:
+        low = m - 1
+    pos = m - low
+    vals = (_composition(rng, size - low, pos) if pos else []) + [-1] * low
+    rng.shuffle(vals)
+    return vals
+
+
+def gen_zero_run_norm(rng, runs=None, log=None, lead=None):
+    """a valid distribution (last count non-zero) with the given numbers of zero counts between non-zero counts; `lead` = number of
+    zero counts in front of the first non-zero one (None: random)"""
+    log = log or rng.randint(5, 12)
+    size = 1 << log
+    if runs is None:
+        runs = [rng.choice(ZRUNS) for _ in range(rng.choice([1, 1, 2, 2, 3, 4, 6]))]
+    runs = list(runs)
+    while sum(runs) + len(runs) + 1 > 256:
+        runs.pop()
+    room = 256 - sum(runs) - (len(runs) + 1)
+    if lead is None:
+        lead = rng.choice([0, 0, 0, 1, 2, 3, 24, 25, rng.randint(0, 60)])
+    lead = min(lead, room)
+    room -= lead
+    # the layout: lead zeros, then groups of non-zero counts separated by the runs
+    groups = []
+    for _ in range(len(runs) + 1):
+        g = min(room + 1, rng.choice([1, 1, 1, 2, 3, rng.randint(1, 12)]))
+        room -= g - 1
+        groups.append(g)
+    m = sum(groups)
+    while m > size:                                # more non-zero counts than cells: shrink the groups
+        k = max(range(len(groups)), key=lambda i: groups[i])
+        groups[k] -= 1
+        m -= 1
+    vals = _values(rng, size, m)
+    # "less than one" counts right before / right after a run, often
+    edges, p = [], 0
+    for k, g in enumerate(groups):
+        if k > 0:
+            edges.append(p)                        # first count behind a run
+        if k < len(groups) - 1:
+            edges.append(p + g - 1)                # last count in front of a run
+        p += g
+    if -1 in vals and edges and rng.random() < 0.6:
+        for e in rng.sample(edges, rng.randint(1, len(edges))):
+            j = vals.index(-1)
+            if vals[e] != -1:
+                vals[j], vals[e] = vals[e], vals[j]
+    norm, p = [0] * lead, 0
+    for k, g in enumerate(groups):
+        norm += vals[p:p + g]
+        p += g
+        if k < len(runs):
+            norm += [0] * runs[k]
+    assert len(norm) <= 256 and norm[-1] != 0 and sum(abs(c) for c in norm) == size
+    return log, norm
+
+
+def gen_ncount_valid(rng, n):
+    """-> list of (tableLog, counts), all valid for FSE_writeNCount (sum = 2^tableLog; trailing zeros are tolerated by the C function when
+    the counts in front of them fill the table: both shapes are produced, gen_norm leaves trailing zeros in)"""
+    out = []
+    for fl in FLAVOURS:                                             # every flavour of gen_norm, as is and without its trailing zeros
+        for _ in range(max(2, n // 40)):
+            log, norm = gen_norm(rng, fl)
+            out.append((log, norm))
+            t = list(norm)
+            while t and t[-1] == 0:
+                t.pop()
+            if t != norm:
+                out.append((log, t))
+    for log in range(5, 13):                                        # per table log: one and two symbols, each run length once
+        size = 1 << log
+        out.append((log, [size]))
+        for hi in (1, 2, 3, 4, 24, 25, 26, 35, 36, 37, 100, 255):
+            out.append((log, [0] * hi + [size]))                    # a single symbol behind zeros
+        a = rng.randint(1, size - 1)
+        out.append((log, [a, size - a]))
+        out.append((log, [size - 1, -1]))
+        out.append((log, [-1, size - 1]))
+        out.append((log, [1, size - 1]))
+        out.append((log, [size - 1, 1]))
+        out.append((log, [0, a, size - a]))
+        for z in (1, 2, 3, 23, 24, 25, 26, 27, 47, 48, 49, 72, rng.randint(100, 254)):
+            b = rng.randint(1, size - 1)
+            out.append((log, [b] + [0] * z + [size - b]))           # two symbols, z zero counts between them
+            out.append((log, [-1] + [0] * z + [size - 1]))
+            out.append((log, [size - 1] + [0] * z + [-1]))
+    for z in ZRUNS + [rng.randint(100, 253) for _ in range(6)]:     # one run of exactly z zeros, random surroundings
+        for _ in range(2):
+            out.append(gen_zero_run_norm(rng, [z]))
+        out.append(gen_zero_run_norm(rng, [z], lead=0))
+    for _ in range(n):                                              # several runs in one distribution
+        out.append(gen_zero_run_norm(rng))
+    for _ in range(n // 4):                                         # -1 everywhere / nearly everywhere
+        log = rng.randint(5, 8)
+        size = 1 << log
+        m = rng.randint(max(1, size - 8), size) if size <= 128 else rng.randint(120, 200)
+        cells = _values(rng, size, m, low=m)
+        gaps = 256 - m
+        norm = []
+        for c in cells:
+            if gaps and rng.random() < 0.1:
+                z = rng.randint(1, min(gaps, 30))
+                norm += [0] * z
+                gaps -= z
+            norm.append(c)
+        out.append((log, norm))
+    return out
+
+
+def gen_ncount_invalid(rng, valid, n):
+    """inputs FSE_writeNCount has to refuse (ERROR(GENERIC) / tableLog_tooLarge), or accepts by ignoring a tail: no undefined behaviour
+    on any of them (every read of normalizedCounter[] is below alphabetSize, the arithmetic is on int / U32, asserts are compiled out)"""
+    out = []
+    for _ in range(n):
+        log, norm = rng.choice(valid)
+        norm = list(norm)
+        k = rng.randrange(9)
+        nz = [i for i, c in enumerate(norm) if c != 0]
+        if k == 0:                                                   # sum too large
+            i = rng.choice(nz); norm[i] = (norm[i] if norm[i] > 0 else 1) + rng.choice([1, 1, 2, 100])
+        elif k == 1:                                                 # sum too small
+            big = [i for i in nz if norm[i] > 1]
+            if big:
+                i = rng.choice(big); norm[i] -= rng.randint(1, norm[i] - 1)
+            else:
+                norm[rng.choice(nz)] = 0
+        elif k == 2:                                                 # trailing zero counts behind a complete distribution (accepted)
+            if len(norm) < 256:
+                norm += [0] * rng.randint(1, min(30, 256 - len(norm)))
+        elif k == 3:                                                 # the last non-zero count missing: the final zero run reaches the end
+            norm[nz[-1]] = 0
+        elif k == 4:                                                 # nothing but zeros
+            norm = [0] * len(norm)
+        elif k == 5:                                                 # a count below -1
+            norm[rng.choice(nz)] = -rng.randint(2, 40)
+        elif k == 6:                                                 # table log outside FSE_MIN_TABLELOG .. FSE_MAX_TABLELOG
+            log = rng.choice([1, 2, 3, 4, 13, 14, 15])
+        elif k == 7:                                                 # the counts of another table log
+            log = rng.choice([l for l in range(5, 13) if l != log])
+        else:                                                        # a huge count
+            norm[rng.choice(nz)] = rng.choice([4096, 4097, 8192, 32767, -32768, -4096])
+        out.append((log, norm))
+    return out
+
+
+def _hexrand(rng, n):
+    return "".join("%02x" % rng.randrange(256) for _ in range(n))
+
+
+def gen_rncount_ops(rng, described, nrandom):
+    """described = [(tableLog, counts, hex of the description)] -> (op lines, {op: the line a correct round trip gives})"""
+    ops, expect = [], {}
+    for log, norm, hx in described:
+        t = list(norm)
+        while t and t[-1] == 0:
+            t.pop()
+        last = len(t) - 1
+        good = "ok log=%d norm=%s used=%d" % (log, ",".join(map(str, t)), len(hx) // 2)
+        for extra in range(8):                                       # hbSize < 8 (padding path) and the 4-bytes-ahead reads near the end
+            tail = _hexrand(rng, extra)
+            for msv in sorted({last, min(255, last + 1), 255}):
+                op = "rncount %d %s" % (msv, hx + tail)
+                ops.append(op)
+                expect[op] = good
+        for msv in sorted({0, last - 1, rng.randrange(last + 1)} - {last, -1}):      # maxSymbolValue too small
+            ops.append("rncount %d %s" % (msv, hx + _hexrand(rng, rng.randint(0, 7))))
+        for cut in (1, 2, 3):                                        # a description cut short
+            if len(hx) // 2 > cut:
+                ops.append("rncount %d %s" % (rng.choice([last, 255]), hx[:-2 * cut]))
+        b = bytearray.fromhex(hx)                                    # one bit flipped
+        i = rng.randrange(len(b) * 8)
+        b[i // 8] ^= 1 << (i % 8)
+        ops.append("rncount %d %s" % (rng.choice([last, min(255, last + 1), 255]), b.hex() + _hexrand(rng, rng.randint(0, 7))))
+    for _ in range(nrandom):                                         # random byte strings (the low nibble = tableLog - 5 kept small, mostly)
+        n = rng.choice([0, 1, 2, 3, 4, 5, 6, 7, 8, 9, rng.randint(10, 40)])
+        b = bytearray(rng.randrange(256) for _ in range(n))
+        if b and rng.random() < 0.85:
+            b[0] = (b[0] & 0xF0) | rng.randint(0, 7)
+        if b and rng.random() < 0.3:                                 # long stretches of 1 bits: runs of zero counts
+            k = rng.randrange(len(b))
+            for j in range(k, min(len(b), k + rng.randint(1, 12))):
+                b[j] = 0xFF
+        ops.append("rncount %d %s" % (rng.choice([255, 255, 52, 35, 31, rng.randint(0, 255)]), b.hex() or "-"))
+    return ops, expect
+
+
+def run_ncount(rng, n):
+    """the FSE_writeNCount / FSE_readNCount tie: -> (violations [(desc, replay-dict)], number of ops compared, counters)"""
+    valid = gen_ncount_valid(rng, n)
+    invalid = gen_ncount_invalid(rng, valid, max(40, n))
+    wops = ["ncount %d %s" % (log, ",".join(map(str, norm))) for log, norm in valid + invalid]
+    bad, cl, ml = compare(wops)
+    described = []
+    if len(cl) == len(wops):
+        for (log, norm), c in zip(valid, cl):                        # every valid input must be accepted
+            if c.startswith("ok ") and c != "ok -":
+                described.append((log, norm, c[3:]))
+            else:
+                bad.append(("FSE_writeNCount refuses a valid normalised distribution", dict(kind="tie", op="ncount %d %s" % (log, ",".join(map(str, norm))), c=c, model="")))
+    rops, expect = gen_rncount_ops(rng, described, 4 * n)
+    bad2, cl2, ml2 = compare(rops)
+    bad += bad2
+    if len(cl2) == len(rops):
+        for op, c in zip(rops, cl2):
+            if op in expect and c != expect[op]:
+                bad.append(("FSE_readNCount does not give back what FSE_writeNCount was given (expected %s)" % expect[op][:200], dict(kind="tie", op=op, c=c, model="", expect=expect[op])))
+    stats = dict(ncount_valid=len(valid), ncount_invalid=len(invalid), ncount_c_errors=sum(1 for c in cl if c.startswith("err")),
+                 rncount=len(rops), rncount_roundtrip=len(expect), rncount_c_errors=sum(1 for c in cl2 if c.startswith("err")))
+    return bad, len(wops) + len(rops), stats
+
+
 def _exe():
     return build.link("zvh_fseenc", ["zvh_fseenc.c"], "plain")
 
@@ -194,7 +431,10 @@ def compare(lines):
                                 dict(kind="tie", op=op, c=c, model=m)))
             elif m.startswith("ok"):
                 out.append(("FSE encoder model: ctable line without the spreadOK / spreadEncEqDec report", dict(kind="tie", op=op, c=c, model=m)))
-        if c != m0 or not c.startswith("ok "):
+        if kind in ("ncount", "rncount"):                            # error lines are legitimate answers there: the whole line is compared
+            if c != m:
+                out.append(("FSE %s: the model and the C code differ" % kind, dict(kind="tie", op=op, c=c, model=m)))
+        elif c != m0 or not c.startswith("ok "):
             out.append(("FSE %s: the model and the C code differ" % kind, dict(kind="tie", op=op, c=c, model=m)))
     return out, cl, ml
 
@@ -209,9 +449,33 @@ def run(ctx):
     lines += [gen_op(ctx.rng) for _ in range(n - len(lines))]
     for desc, data in compare(lines)[0]:
         ctx.violation(desc, data)
-    return dict(evaluations=n)
+    nbad, nops, stats = run_ncount(ctx.rng, 60 if ctx.quick() else 250)
+    for desc, data in nbad[:20]:
+        ctx.violation(desc, data)
+    return dict(evaluations=n + nops, mismatches=len(nbad), **stats)
 
 
 def replay(ctx, data):
     bad, cl, ml = compare([data["op"]])
+    if data.get("expect") and cl[:1] != [data["expect"]]:          # a round trip FSE_readNCount(FSE_writeNCount(norm)) that did not give norm back
+        bad = bad or [("round trip", data)]
     return dict(violates=bool(bad), c=cl[0] if cl else "<missing>", model=ml[0] if ml else "<missing>")
+
+
+if __name__ == "__main__":
+    import random
+
+    class Ctx:
+        def __init__(self):
+            self.rng = random.Random(int(sys.argv[1]) if len(sys.argv) > 1 else 1)
+            self.violations = []
+
+        def quick(self):
+            return len(sys.argv) <= 2
+
+        def violation(self, desc, replay, no_input=False, key=None):
+            self.violations.append(desc)
+            print("VIOLATION:", desc[:300], "| op:", str(replay.get("op"))[:300], "| c:", str(replay.get("c"))[:200], "| model:", str(replay.get("model"))[:200])
+
+    cx = Ctx()
+    print(run(cx), "violations=%d" % len(cx.violations))
